@@ -22,7 +22,7 @@ import (
 func TestMain(m *testing.M) {
 	kit.Main(m, "C11", "exploration",
 		"both secure-memory implementations with the REAL memory primitives; the kernel's view of the pages is read from /proc/self/smaps (permissions, VmFlags lo = mlocked, dd = excluded from core dumps) for the address seen inside the callback. "+
-			"(1) rapid sequential programs: sizes 1 byte .. 3 pages +/- 1, New / CreateRandom, WithBytes, WithBytesFunc nested to depth 3, Reader.Read with odd buffer sizes, a Reader partly consumed before Close and read again after it, a read on the last reference to an unclosed secret with garbage collections forced during the callback, a callback that panics and is recovered by the caller, IsClosed, Close, use after Close; page state sampled inside every callback, between callbacks and after Close. "+
+			"(1) rapid sequential programs: sizes 1 byte .. 3 pages +/- 1, New / CreateRandom, WithBytes, WithBytesFunc nested to depth 3, Reader.Read with odd buffer sizes, a Reader partly consumed before Close and read again after it, a read on the last reference to an unclosed secret with garbage collections forced during the callback, a callback that panics and is recovered by the caller, IsClosed, Close, use after Close; page state sampled inside every callback, between callbacks, after Close, and - at the address the previous secret of that size had - before a new secret's first access. "+
 			"(2) rapid concurrent cases: 2-4 readers and 1-2 closers on one secret with a delay plan (1-3 pauses of 0.2-3 ms) over the statement-level yield points the overlay inserts into the two secret.go files; reader goroutines run with SetPanicOnFault so a touch of a PROT_NONE / unmapped page is a recorded violation. "+
 			"Oracle: r--p + locked + dontdump while at least one reader is inside (never writable), ---p + locked + dontdump when idle, unmapped (or at least no longer locked) after Close; readers see exactly the original bytes; the source slice of New is zero afterwards; Close returns only when no callback is running; "+
 			"an access after Close returned gives an error and does not run the callback; IsClosed agrees with the model; no fault, no hang. One evaluation = one program. "+
@@ -91,6 +91,8 @@ func checkClosed(addr uintptr) string {
 }
 
 var tinySink *bool
+
+var lastClosedAddr = map[string]uintptr{}
 
 // churn flushes the allocator's tiny-object block and runs collections so that pending
 // finalizers become runnable.
@@ -165,6 +167,15 @@ func TestSequential(t *testing.T) {
 		}
 		var addr uintptr
 		closed := false
+		// the address of the last closed secret of this implementation and size: the kernel usually hands it to the
+		// next one. Its state is sampled BEFORE the new secret's first access (there is no other way to look at a
+		// secret that has never been read) and judged once the first access has shown that it is indeed the same address.
+		reuseKey := fmt.Sprintf("%s|%d", impl, size)
+		prevAddr := lastClosedAddr[reuseKey]
+		var preFirstUse pageInfo
+		if prevAddr != 0 {
+			preFirstUse = pageState(prevAddr)
+		}
 		overlapped, closeInside := false, false
 		panicked := false
 		// closeGuarded: a Close that never returns (a reader count that can no longer reach zero) is a violation, not a slow test
@@ -198,6 +209,10 @@ func TestSequential(t *testing.T) {
 		if msg := checkIdle(addr, "after the first read"); msg != "" {
 			bad("%s", msg)
 		}
+		if prevAddr != 0 && addr == prevAddr && preFirstUse.Mapped && preFirstUse.Locked && preFirstUse.Perms != "---p" {
+			bad("before its first access the new secret's page (at the address a closed secret had before) was %s, expected inaccessible ---p", preFirstUse)
+		}
+		defer func() { lastClosedAddr[reuseKey] = addr }()
 		n := rapid.IntRange(1, 8).Draw(t, "ops")
 		for i := 0; i < n; i++ {
 			op := rapid.SampledFrom([]string{"WithBytes", "WithBytesFunc", "Nested2", "Nested3", "Reader", "IsClosed", "Close", "Close", "ReadAfter", "ReaderAcrossClose", "LastReferenceRead", "PanicInCallback"}).Draw(t, "op")
